@@ -380,6 +380,9 @@ def _accessor_rows(run, model):
                     okr = isinstance(tgt, ast.Name) and role_of_local.get(tgt.id) == acc
                     what = "the new checker replaces `%s` for the accessor `%s`" % (src_of(tgt), acc)
                 run.check(okr, "C04.accessor", "%s:%s@%d" % (nfp.fi.qual, acc, n_rows), "role-preserving accessor matching", what + ": getter, setter and deleter contracts would be mixed up", nfp.fi.loc(st), None, first_line(st))
+    if n_rows == 0:
+        # the matching is not written as tests of `func == value.<accessor>`: nothing this rule can read
+        raise AnalysisError("C04.accessor: %s matches the accessors in a form this rule cannot read (no `func == value.fget / .fset / .fdel` tests)" % nfp.fi.qual)
     if n_rows < 6:
         run.violation("C04.accessor", nfp.fi.qual, "only %d accessor-matching rows found (expected 6: 3 for the base lookup, 3 for the replacement)" % n_rows, nfp.fi.loc())
 
